@@ -465,6 +465,81 @@ Fixpoint rhythm_expand (fuel : nat) (tbl : list (Z * list ch)) (s : list ch) : l
       end
   end.
 
+(* ---- controllers and bends (literal arguments only; the `.onTime/.onNote/...` forms are not modelled here) ---- *)
+Definition oz (o : option Z) : Z := match o with Some v => v | None => 0 end.
+(* the result of a reader that may produce no token (an Empty / Error token of the code) and may write a log entry *)
+Definition rd_out := (option tok * list ch * Z * lexstate)%type.
+
+(* read_command_cc(no): `M(v)` `V=v` ...; the value is what exec_value leaves: one argument, 0 when it is empty *)
+Definition read_command_cc (ls : lexstate) (no : Z) (s : list ch) (ln : Z) : res rd_out :=
+  if eq_char s c_DOT then Unsupported U_DOTCMD
+  else
+    let s1 := if eq_char s 61 then tl s else s in
+    do ra <- read_args_tokens ls s1 ln;
+    let '(vs, s2, ln2, ls') := ra in
+    match vs with
+    | [o] => Ok (Some (TCC no (oz o)), s2, ln2, ls')
+    | _ => Unsupported U_UPPER
+    end.
+
+(* read_cc(ch): `y<no>,<value>` (is_c = false) and `CC(no,value)` (is_c = true) *)
+Definition read_cc (ls : lexstate) (is_c : bool) (s : list ch) (ln : Z) : res rd_out :=
+  let '(s1, ln1) := skip_space s ln in
+  let '(no, s2) := if is_c then (if eq_char s1 40 then get_int 0 (tl s1) else (0, s1)) else get_int 0 s1 in
+  if eq_char s2 c_DOT then read_command_cc ls no s2 ln1
+  else
+    let '(s3, ln3) := skip_space s2 ln1 in
+    if negb (eq_char s3 44) && negb (eq_char s3 40) then Ok (None, s3, ln3, ls)    (* an Error token: nothing is logged *)
+    else
+      let s4 := if eq_char s3 44 then tl s3 else s3 in
+      do r <- read_calc_literal (lx_timebase ls) s4 ln3;
+      let '(v, s5, ln5) := r in
+      match v with
+      | None => Ok (None, s5, ln5, read_error_cmd ls s5 ln5 (zs "ControlChange"))
+      | Some z =>
+          if is_c then
+            let '(s6, ln6) := skip_space s5 ln5 in
+            Ok (Some (TCC no z), (if eq_char s6 41 then tl s6 else s6), ln6, ls)
+          else Ok (Some (TCC no z), s5, ln5, ls)
+      end.
+
+(* read_pitch_bend_small (big = 0) / read_command_pitch_bend_big (big = 1) *)
+Definition read_pitch_bend (big : Z) (tb : Z) (s : list ch) (ln : Z) : res (tok * list ch * Z) :=
+  if prefixb (zs ".onTime") s || prefixb (zs ".T") s then Unsupported U_DOTCMD
+  else do r <- read_arg_value (arg_fuel s) tb s ln; let '(v, s1, ln1) := r in Ok (TPitchBend big (aval_to_i v), s1, ln1).
+
+(* read_rpn_command / read_nrpn_command *)
+Definition read_rpn_command (ls : lexstate) (nrpn : bool) (msb lsb : Z) (s : list ch) (ln : Z) : res rd_out :=
+  do ra <- read_args_tokens ls s ln;
+  let '(vs, s2, ln2, ls') := ra in
+  match vs with
+  | [o] => Ok (Some (TRpnCmd nrpn msb lsb (oz o)), s2, ln2, ls')
+  | _ => Unsupported U_UPPER
+  end.
+
+(* the commands of read_upper_command this extension adds, by token type (and argument type) of the table row;
+   anything else stays outside the model *)
+Definition read_ext_command (ls : lexstate) (ttype : list ch) (argt tag1 tag2 : Z) (s : list ch) (ln : Z) : res rd_out :=
+  if argt =? 65 then
+    (* 'A': skip blanks, an optional '=', read_args_tokens *)
+    if list_eqb ttype (zs "RPN") || list_eqb ttype (zs "NRPN") || list_eqb ttype (zs "Voice") then
+      let '(s2, ln2) := skip_space s ln in
+      let s3 := if eq_char s2 61 then tl s2 else s2 in
+      do ra <- read_args_tokens ls s3 ln2;
+      let '(vs, s4, ln4, ls') := ra in
+      let args := map oz vs in
+      Ok (Some (if list_eqb ttype (zs "Voice") then TVoice args else TRpnDirect (list_eqb ttype (zs "NRPN")) args), s4, ln4, ls')
+    else Unsupported U_UPPER
+  else if argt =? 42 then
+    if list_eqb ttype (zs "ControlChange") then read_cc ls true s ln
+    else if list_eqb ttype (zs "ControlChangeCommand") then read_command_cc ls tag1 s ln
+    else if list_eqb ttype (zs "PitchBend") then
+      do r <- read_pitch_bend 1 (lx_timebase ls) s ln; let '(t, s1, ln1) := r in Ok (Some t, s1, ln1, ls)
+    else if list_eqb ttype (zs "RPNCommand") then read_rpn_command ls false tag1 tag2 s ln
+    else if list_eqb ttype (zs "NRPNCommand") then read_rpn_command ls true tag1 tag2 s ln
+    else Unsupported U_UPPER
+  else Unsupported U_UPPER.
+
 (* ---- lex(): the main loop ---- *)
 Definition lex_out := (list tok * lexstate)%type.
 
@@ -494,7 +569,11 @@ Fixpoint lex_f (fuel : nat) (ls : lexstate) (src : list ch) (lineno : Z) : res l
            else if ((c =? 113) || (c =? 118)) && negb (prefixb (zs "Add") r || ((c =? 113) && prefixb (zs "2Add") r)) then
              (if c =? 113 then push (read_qlen tb r ln) else push (read_velocity tb r ln))
            else if c =? 116 then push (read_timing tb r ln)
-           else if (c =? 112) || (c =? 121) then Unsupported U_CHAR
+           else if c =? 112 then push (read_pitch_bend 0 tb r ln)
+           else if c =? 121 then
+             do ra <- read_cc ls false r ln;
+             let '(ot, s2, ln2, ls') := ra in
+             loop n' ls' s2 ln2 harmony (match ot with Some t => acc ++ [t] | None => acc end)
            else if is_upper c || (c =? 95) || (c =? 113) || (c =? 118) then
              (* cur.prev(): the command is re-read from the ORIGINAL character (vAdd / qAdd / q2Add arrive here too) *)
              (* cur.prev(); cur.replace_char(ch): the command is re-read with the converted character *)
@@ -517,7 +596,7 @@ Fixpoint lex_f (fuel : nat) (ls : lexstate) (src : list ch) (lineno : Z) : res l
                      do cv <- check_variables ls word s1 ln;
                      let '(ot, s2, ln2, ls') := cv in
                      loop n' ls' s2 ln2 harmony (match ot with Some t => acc ++ [t] | None => acc end)
-                 | Some (ttype, (argt, _)) =>
+                 | Some (ttype, (argt, (tag1, tag2))) =>
                    if ((argt =? 73) || (argt =? 65)) &&
                       (list_eqb ttype (zs "Time") || list_eqb ttype (zs "PlayFrom") || list_eqb ttype (zs "TimeSignature")
                        || list_eqb ttype (zs "TieMode")) then
@@ -580,7 +659,10 @@ Fixpoint lex_f (fuel : nat) (ls : lexstate) (src : list ch) (lineno : Z) : res l
                      do sub <- lex_f f ls block ln2;
                      let '(toks, ls') := sub in
                      loop n' ls' s4 ln4 harmony (acc ++ [TDiv (div_count toks) len toks])
-                   else Unsupported U_UPPER
+                   else
+                     do ra <- read_ext_command ls ttype argt tag1 tag2 s1 ln;
+                     let '(ot, s2, ln2, ls') := ra in
+                     loop n' ls' s2 ln2 harmony (match ot with Some t => acc ++ [t] | None => acc end)
                  end
              else Unsupported U_CHAR   (* a full-width capital: prev() re-reads the unconverted character *)
            else if c =? 35 then
